@@ -50,7 +50,8 @@
  *
  * --deep (given by ./check to the thorough tier only): every string
  * enumeration one symbol longer than thorough over the same alphabets: json
- * 0..8, b64d 0..9, unhex len 0..5, pnum integer 0..7 and float 0..7, hsize
+ * 0..8, b64d 0..9 and unhex len 0..5 (both over their alphabet plus the byte
+ * ff: 8 symbols), pnum integer 0..7 and float 0..7, hsize
  * 0..8, sock 0..8, small files 0..7, getopt 0..6 tokens (opterr 1 still for
  * <= 2 tokens); jsonc and the generated families as in thorough.
  *
@@ -366,7 +367,8 @@ case_b64d(const uint8_t * desc, size_t len)
 		printf("b64d: block %zu, inlen %zu -> rc %d outlen %zu\n", L, inlen, rc, rc ? 0 : *outlen);
 }
 
-static const uint8_t B64DALPHA[7] = { 'A', '/', '+', '=', '*', 0x00, 'a' };
+static const uint8_t B64DALPHA[8] = { 'A', '/', '+', '=', '*', 0x00, 'a', /* --deep only: */ 0xff };
+static int b64d_nsym = 7;
 
 static void
 b64d_one(const uint8_t * s, size_t L)
@@ -414,7 +416,8 @@ case_unhex(const uint8_t * desc, size_t len)
 		printf("unhex: block %zu, len %zu -> rc %d\n", L, n, rc);
 }
 
-static const uint8_t HEXALPHA[7] = { '0', '9', 'a', 'F', 'g', 0x00, ' ' };
+static const uint8_t HEXALPHA[8] = { '0', '9', 'a', 'F', 'g', 0x00, ' ', /* --deep only: */ 0xff };
+static int hex_nsym = 7;
 
 static void
 unhex_one(const uint8_t * s, size_t L)
@@ -627,8 +630,8 @@ unit_json(uint64_t u)
 	if (u == 4)
 		vf_sample("json: every string starting with {\" over the 13-symbol alphabet up to the length bound, e.g. {\"a\\ and {\"\\u1 (ends inside an escape), x keys a/\"\"/ab: result inside [buf,end], no access outside the exact-size block");
 }
-static void unit_b64d(uint64_t u) { enum_strings(u, B64DALPHA, 7, b64_maxlen, b64d_one); }
-static void unit_unhex(uint64_t u) { enum_strings(u, HEXALPHA, 7, 2 * hex_maxlen, unhex_one); }
+static void unit_b64d(uint64_t u) { enum_strings(u, B64DALPHA, b64d_nsym, b64_maxlen, b64d_one); }
+static void unit_unhex(uint64_t u) { enum_strings(u, HEXALPHA, hex_nsym, 2 * hex_maxlen, unhex_one); }
 static void unit_pint(uint64_t u) { enum_strings(u, PINTALPHA, 13, pnum_maxlen, pint_one); }
 static void unit_pflt(uint64_t u) { enum_strings(u, PFLTALPHA, 14, pflt_maxlen, pflt_one); }
 static void
@@ -766,20 +769,25 @@ main(int argc, char ** argv)
 	if (deep) {
 		/*
 		 * Beyond thorough (./check gives --deep to the thorough tier only): every
-		 * string enumeration one symbol longer over the same alphabets.  A replay
+		 * string enumeration one symbol longer over the same alphabets (b64decode
+		 * and unhexify: alphabet plus the byte ff).  A replay
 		 * needs no flag: every case record carries its complete input.
 		 */
 		json_maxlen = 8; b64_maxlen = 9; hex_maxlen = 5; pnum_maxlen = 7; pflt_maxlen = 7; hs_maxlen = 8; sock_maxlen = 8;
 		getopt_maxlen = 6; file_maxlen = 7;
+		b64d_nsym = 8; hex_nsym = 8;	/* plus a byte with the high bit set */
+		for (s = 0; s < NSEC; s++)
+			if (strcmp(SEC[s].name, "b64d") == 0 || strcmp(SEC[s].name, "unhex") == 0)
+				SEC[s].nunits = 64;
 	}
 	if (vf_replay != NULL)
 		return (replay_one());
 	vf_count("parse.exhaustive", 0);
 	vf_info("bounds", "json_find: 13-symbol alphabet ^0..%d x 3 keys; corpus documents of 0..%d members (every new prefix, every deletion); depth 10000; "
-	    "b64decode: 7 symbols ^0..%d x inlen variants; unhexify: 7 symbols, len 0..%d; PARSENUM: 13 symbols ^0..%d x 5 integer types x 4 bases x trailing, "
+	    "b64decode: %d symbols ^0..%d x inlen variants; unhexify: %d symbols, len 0..%d; PARSENUM: 13 symbols ^0..%d x 5 integer types x 4 bases x trailing, "
 	    "14 symbols ^0..%d x {double,float}; humansize_parse: 9 symbols ^0..%d; digit runs 18..40; sock_resolve: 8 symbols ^0..%d + Unix paths 100..112 + long forms; "
 	    "deserialize: 44 buffer lengths x 10 length fields x 5 families; key/pass files: 6 symbols ^0..%d + generated long lines; getopt: 18 tokens ^0..%d x 2 tables",
-	    json_maxlen, jsonc_maxm, b64_maxlen, hex_maxlen, pnum_maxlen, pflt_maxlen, hs_maxlen, sock_maxlen, file_maxlen, getopt_maxlen);
+	    json_maxlen, jsonc_maxm, b64d_nsym, b64_maxlen, hex_nsym, hex_maxlen, pnum_maxlen, pflt_maxlen, hs_maxlen, sock_maxlen, file_maxlen, getopt_maxlen);
 	vf_info("nontrivial_rule", "the parser accepted the input / returned a pointer inside the buffer / reached a registered option (so the decoding, copying or value path ran, not only the first validation test); distinct sets saturate at 2^20 entries each (lower bound)");
 	for (s = 0; s < NSEC; s++)
 		total += SEC[s].nunits;
